@@ -51,4 +51,9 @@ PROPS = {
         "trusted": ["the BLS scheme is abstract in Coq (any scheme with verify(sign) = true); the real library is exercised only by the harness", "Base/Sha256.v uses the kernel's primitive 63-bit integers (PrimInt63.*, listed by Print Assumptions; not axioms of the development); no theorem depends on a property of SHA-256 other than its output length", "fastssz (compared with the harness's own SSZ and with Ssz.v)"],
         "assumptions": [],
     },
+    "C03": {
+        "relation": "Corr.CheckCrash.check_kill (signatures released before a SIGKILL at a hook point, and the durable store after restart and the rest of the history = crun under the corresponding cut) and the hypotheses of C03_crash_safety_partial: sync_writes (read from the open store's badger options) and write_before_sign (hook event order; store read at the moment Sign is invoked)",
+        "trusted": ["badger: a commit that returned with SyncWrites is durable; the OS and the disk honour fsync (SIGKILL cannot distinguish page cache from disk)", "kill points are the hook points (entry/exit of Fetch, Store, BatchStore, before/after Sign, request start/end); a kill inside badger's write is not exercised"],
+        "assumptions": ["safe_ccfg: sync_writes and write_before_sign", "partial: see Properties/C03.v"],
+    },
 }
